@@ -197,6 +197,27 @@ func Run(ctx *common.Ctx) int {
 	}
 	cmp.Count("S2 periodic patterns with bit flips", s2evals)
 	cmp.Sample(map[string]interface{}{"family": "S2", "example": "pattern 0110 repeated to n=1001 with bits 0 and 1000 flipped", "lengths": specs})
+	// fillers (moderate P-values) at every word-boundary length and at the regime boundaries
+	fl := e2.WordLengths(999, 1000, 1001, 9999, 10000, 10001, 20000)
+	fev, fok := d.Fillers(ctx, fl, 2, uint64(ctx.Seed))
+	cmp.Count("fillers and biased fillers at every n in 33..200, around powers of two and at the block-length boundaries", fev)
+	exhaustive = exhaustive && fok
+	// 10^6 bits: the sizes the standard is about (block frequency with m=2 has 5*10^5 blocks there)
+	for k := 0; k < 3; k++ {
+		if ctx.Expired() {
+			exhaustive = false
+			break
+		}
+		bits := enum.Filler(1000000, uint64(ctx.Seed)+900+uint64(k))
+		if k == 1 {
+			for j := 0; j < len(bits); j += 50 {
+				bits[j] = true
+			}
+		}
+		cmp.Count("10^6-bit fillers x all parameterisations", int64(d.One(bits, func() interface{} {
+			return map[string]interface{}{"n": 1000000, "filler_seed": ctx.Seed + 900 + int64(k), "biased": k == 1}
+		})))
+	}
 	// S3: automatic block length for every n <= 20000 on two fillers (+- 1 around 10^6; thorough 10^8)
 	limit := 20000
 	for _, seed := range []uint64{uint64(ctx.Seed), uint64(ctx.Seed) + 77} {
